@@ -210,3 +210,23 @@ fn qp_deprecated_write_shared_refused() {
     h.write(7);
     assert!(false, "deprecated Arc::write returned on a shared Arc");
 }
+
+// zero-sized payload: the gates must not be short-circuited on the payload's size
+#[derive(Clone)]
+struct Z0;
+h!(q_gates_zst, {
+    let a = Arc::new(Z0);
+    let w = ManuallyDrop::new(unsafe { core::ptr::read(&a) });
+    let mut h = a;
+    let c: usize = kani::any();
+    kani::assume(c >= 1 && c <= MAXC);
+    set_count(&w, c);
+    assert!(Arc::get_mut(&mut h).is_some() == (c == 1), "get_mut on a zero-sized payload: verdict differs from 'count is one'");
+    assert!(h.is_unique() == (c == 1));
+    let _ = Arc::make_mut(&mut h);
+    assert!(Arc::ptr_eq(&h, &w) == (c == 1), "make_mut on a zero-sized payload: in place while shared, or copied a sole owner");
+    assert!(Arc::count(&h) == 1);
+    kani::cover!(c == 1);
+    kani::cover!(c == 2);
+    forget(h);
+});
